@@ -245,4 +245,32 @@ ITEMS = location_types() + budget_types() + error_types() + [
                  decreases='ev.rest().len()'),
          },
          canaries=['captures_exactly_one_node', 'C04:fingerprint_is_structure_text_tag']),
+    # merge expansion: order in which collected batches are flattened (own fields first, then merge
+    # sources from last to first).  The node-level correspondence with the event stream is not proved
+    # in this revision; the flattening order is (obligation `merge_sources_last_to_first`).
+    dict(src=D, path='fn pending_entries_from_live_events', trusted=True, props=[],
+         ensures=[('only_consumes', 'r is Ok ==> final(ev).rest().len() <= old(ev).rest().len()')]),
+    dict(src=D, path='fn collect_entries_from_map', props=['C03', 'C01'],
+         requires=[('stream_below_2_64_events', 'old(ev).rest().len() <= usize::MAX')],
+         proofs=[
+             dict(before='let key = capture_node(ev)?;', ghost=True, text='let ghost s1 = ev.rest();'),
+             dict(after='let key = capture_node(ev)?;', text='lemma_knode_bounds(s1, 0);'),
+             dict(before='let value = capture_node(ev)?;', ghost=True, text='let ghost s2 = ev.rest();'),
+             dict(after='let value = capture_node(ev)?;', text='lemma_knode_bounds(s2, 0);'),
+             dict(before='let mut entries = fields;', ghost=True, text='let ghost f0 = abs_entries(fields@); let ghost b0 = merges@;'),
+             dict(before='entries.append(&mut nested);', ghost=True, text='let ghost e_before = entries@; let ghost n0 = nested@;'),
+             dict(after='entries.append(&mut nested);', text='lemma_abs_entries_append(e_before, n0);'),
+             dict(after_loop=2, label='merge_sources_last_to_first',
+                  text='assert(concat_rev(merges@) =~= Seq::<AEnt>::empty()); assert(abs_entries(entries@) =~= f0 + concat_rev(b0));'),
+         ],
+         ensures=[('only_consumes', 'r is Ok ==> final(ev).rest().len() <= old(ev).rest().len()')],
+         loops={
+             1: dict(header=r'^loop$', invariant=[('bounded', 'ev.rest().len() <= old(ev).rest().len() && old(ev).rest().len() <= usize::MAX')],
+                     decreases='ev.rest().len()'),
+             2: dict(header=r'^while let Some\(mut nested\) = merges\.pop\(\)$',
+                     invariant=[('newest_batch_first', 'abs_entries(entries@) + concat_rev(merges@) =~= f0 + concat_rev(b0)'),
+                                ('cursor', 'ev.rest().len() <= old(ev).rest().len()')],
+                     ensures=[('all_batches_used', 'merges@.len() == 0')],
+                     decreases='merges@.len()'),
+         }),
 ]
